@@ -303,7 +303,7 @@ def gen_groups(rng, tier):
             lo, hi = bounds(s, n)
             for f in sorted(set([-12, -9, -4, -2, -1, 0, 1, 4, n // 2, n, 70] + ([] if not thorough else fracs_all[::7]))):
                 vs = [v for v in gen_ints(rng, s, n, 60 if thorough else 24)]
-                groups.append(dict(kind="back", signed=s, n_bits=n, n_frac=f, vs=vs, word_dtype=wd, nomodel=True))
+                groups.append(dict(kind="back", signed=s, n_bits=n, n_frac=f, vs=vs, word_dtype=wd, nomodel=nomodel(f)))
             for wn in [m for m in NP_BITS if m >= n]:
                 for wsigned in (False, True):
                     sb_ = 1
@@ -319,7 +319,7 @@ def gen_groups(rng, tier):
                                 continue    # a SIGNED numpy word of the format's own width is not an "unsigned
                                 #             integer" word: `value & (1 << (n_bits - 1))` raises OverflowError
                             if ws and s == fs:
-                                groups.append(dict(kind="unfix", signed=fs, n_bits=n, n_frac=f, nomodel=True,
+                                groups.append(dict(kind="unfix", signed=fs, n_bits=n, n_frac=f, nomodel=nomodel(f),
                                                    word_dtype=("int%d" if wsigned else "uint%d") % wn,
                                                    wv=[[w, w - (1 << n) if (fs and w >= (1 << (n - 1))) else w] for w in ws]))
     # (b) floats handed over as numpy float scalars, at and around both ends of every format's range
@@ -826,6 +826,7 @@ def run(chk, args):
     import time
     t0 = time.time()
     phase = {}
+    chk.regenerate(["GenFixFloat"])      # tie T: rig/type_casts.py re-extracted into the syntax of Model/FixFloatSyntax.v
     built = chk.prove()
     phase["prove"] = round(time.time() - t0, 1)
     if args.replay:
